@@ -75,7 +75,74 @@ def configs(tier):
         for mat in ('sym', 'nonsym'):
             for vecc in (0, 1):
                 cfgs.append({'kind': 'quadform', 'space': sp, 'mat': mat, 'vec': vecc})
+    # the factory pairs of proximal_operators.py with their own parameters (weight lam, data term
+    # g, scalar and per-point steps): the Functional classes reach them with lam = 1 only
+    from mc.props import c10
+    for prim, conj in RAW_PAIRS:
+        kinds, opts, _, sigk = c10.RAW[prim]
+        sps = ((['rn3', 'rn3wa', 'ud3'] if not thorough else FR.TENS) if 'T' in kinds else []) + \
+              ((['pw_ud2_2'] if not thorough else FR.POW) if 'P' in kinds else [])
+        for sp in sps:
+            for o in opts:
+                for sk in sorted(set(sigk) & set(c10.RAW[conj][3])):
+                    cfgs.append({'kind': 'rawpair', 'name': prim, 'space': sp, 'opt': o, 'sk': sk})
     return cfgs
+
+
+RAW_PAIRS = [('proximal_l1', 'proximal_convex_conj_l1'), ('proximal_l2', 'proximal_convex_conj_l2'),
+             ('proximal_l2_squared', 'proximal_convex_conj_l2_squared'),
+             ('proximal_l1_l2', 'proximal_convex_conj_l1_l2'),
+             ('proximal_linfty', 'proximal_convex_conj_linfty')]
+_SIG = [0.5, 2.0, 1.0, 0.25, 4.0, 1.0, 0.5, 2.0]
+
+
+def _run_rawpair(cfg, site):
+    """prox_{sigma f}(x) + sigma * prox_{f*/sigma}(x / sigma) = x for the factory pairs."""
+    from mc.props import c10
+    info = FR.info(cfg['space'])
+    conj = dict(RAW_PAIRS)[cfg['name']]
+    first = {}
+    evals = 0
+    try:
+        fa = c10.RAW[cfg['name']][2](info.space, cfg['opt'])
+        fb = c10.RAW[conj][2](info.space, cfg['opt'])
+    except Exception as e:
+        return {'evals': 1, 'sig': 'build-raises',
+                'viol': [{'site': site, 'symptom': 'construction_raises:' + type(e).__name__,
+                          'detail': repr(e)[:300]}]}
+    n = info.n
+    sigmas = [0.5, 2.0] if cfg['sk'] == 'scalar' else [np.asarray((_SIG * 4)[:n])]
+    for sg in sigmas:
+        if cfg['sk'] == 'scalar':
+            s1, s2, sarr = sg, 1.0 / sg, np.full(n, sg)
+        else:
+            s1, s2, sarr = info.elem(sg), info.elem(1.0 / sg), sg
+        try:
+            p1, p2 = fa(s1), fb(s2)
+        except Exception as e:
+            first.setdefault('proximal_factory_raises:' + type(e).__name__, repr(e)[:200])
+            continue
+        alph = FR.V5 if n <= 3 else [-2.0, 0.5, 3.0]
+        for x in S.points(n, alph):
+            try:
+                a = S.to_flat(p1(info.elem(x))).astype(float)
+                b = S.to_flat(p2(info.elem(x / sarr))).astype(float)
+            except Exception as e:
+                first.setdefault('proximal_raises:' + type(e).__name__,
+                                 'x=%s: %r' % (x.tolist(), e))
+                continue
+            evals += 2
+            r = a + sarr * b
+            if not np.all(np.isfinite(r)) or \
+                    np.max(np.abs(r - x)) > 1e-6 * (1 + np.max(np.abs(x))):
+                first.setdefault('moreau_decomposition_fails',
+                                 'opt=%s sigma=%s x=%s prox_f=%s prox_f*=%s sum=%s'
+                                 % (cfg['opt'], np.asarray(sg).tolist(), x.tolist(), a.tolist(),
+                                    b.tolist(), r.tolist()))
+    viol = [{'site': site, 'symptom': s_, 'detail': d} for s_, d in first.items()]
+    return {'evals': evals, 'viol': viol, 'sig': 'rawpair:%s:%s:%d' % (cfg['name'], cfg['sk'],
+                                                                      len(viol)),
+            'trivial': evals == 0}
 
 
 def _sk(name):
@@ -106,6 +173,9 @@ def _site(cfg):
         return 'simple_functional[%s]' % _sk(cfg['space'])
     if k == 'quadform':
         return 'QuadraticForm[%s,vector=%d,%s]' % (cfg['mat'], cfg['vec'], _sk(cfg['space']))
+    if k == 'rawpair':
+        o = ','.join('%s=%s' % kv for kv in sorted(cfg['opt'].items()) if kv[0] != 'lam')
+        return 'factory-pair:%s(%s)[%s,sigma=%s]' % (cfg['name'], o, _sk(cfg['space']), cfg['sk'])
     return k
 
 
@@ -247,6 +317,8 @@ def _eq(a, b, tol):
 
 def run(cfg):
     site = _site(cfg)
+    if cfg['kind'] == 'rawpair':
+        return _run_rawpair(cfg, site)
     try:
         B = _build(cfg)
     except NotImplementedError:
